@@ -16,7 +16,7 @@ for d in sorted(glob.glob(os.path.join(HERE, "seeded", "*"))):
     cell = lambda s: str(s).replace("|", "/").replace("\n", " ")
     rows.append(f"| {name} | {m['property']} | {cell(m['summary'])[:400]} | {cell(m['needs_to_manifest'])[:300]} | {'yes' if r[0]['caught'] else 'NO'} ({r[0]['tier']}) | {', '.join(mech[:3])}{' …' if len(mech) > 3 else ''} | {note} |")
 out = ("# Seeded property-breaking changes\n\nWritten by independent sub-agents that were given only the property text and a scratch worktree of /repo "
-       "(never anything from /verif). Round 1 (`*-seedNN`): one change per property; rounds 2 and 3 (`*-r2seedNN`, `*-r3seedNN`): two further changes per property each, with "
+       "(never anything from /verif). Round 1 (`*-seedNN`): one change per property; rounds 2 and 3 (`*-r2seedNN`, `*-r3seedNN`): two further changes per property each, round 4 (`*-r4seedNN`): one more per property aimed at whatever a generator built around the statement is least likely to exercise, with "
        "different triggers. Each directory `seeded/<name>/` holds `patch.diff`, `demo.py`, `meta.json` (with the lead's confirmation record from "
        "`tools/verify_seed.sh`: applies at /repo HEAD, the FULL repository suite passes with it, the demo fails with it and passes without) and "
        "`result.json` (last `tools/seeded.sh` run = `./check <property>` against a scratch copy with the patch applied).\n\n"
